@@ -31,6 +31,12 @@ def load_known():
     return known
 
 
+try:
+    LOOPCOUNTS = json.load(open(os.path.join(os.path.dirname(os.path.abspath(__file__)), "specs", "loopcounts.json")))
+except Exception:
+    LOOPCOUNTS = {}
+
+
 def key_matches(known_key, key):
     # known keys are written with spaces replaced by '_' and may be a prefix
     k = re.sub(r"\s+", "_", key)
@@ -178,6 +184,16 @@ def main():
             for c in info["clauses"]:
                 if pid in c["props"] and len(samples) < 12 and not c["text"].startswith("//"):
                     samples.append("%s :: %s" % (c["fn"], c["text"][:160]))
+            # a contracted function that has MORE loops than when its contract file was written (specs/loopcounts.json) has a
+            # loop nobody wrote an invariant for: whatever fails inside it cannot be told apart from a harmless rewrite of
+            # straight-line code into a loop -> undecided, never an alarm
+            base_loops = LOOPCOUNTS.get(specname, {})
+            for fi in info["functions"]:
+                fnm = fi["fn"]
+                if fnm in failed_here and fnm in base_loops and fi.get("n_loops", 0) > base_loops[fnm]:
+                    undecided.append("%s: %s has %d loop(s), its contract file knows %d: a loop without invariant; %d failed obligation(s) inside it are not decidable"
+                                     % (specname, fnm, fi.get("n_loops", 0), base_loops[fnm], len(failed_here[fnm])))
+                    del failed_here[fnm]
             for f in sum(failed_here.values(), []):
                 kh = [k for k in known if key_matches(k["key"], f["key"])]
                 if kh:
